@@ -1,10 +1,108 @@
-(* C09 — a saved index is either equivalent to a fresh one or is rejected.  (floor; deeper theorems follow) *)
+(* C09 — a saved index is either equivalent to a fresh one or is rejected.
+   Property theorems only; each is closed by [exact <lemma>] and followed by Print Assumptions.
+   [p1] is the P1-time decoder of the payload classes (any function); [fresh p1 d] is the index a fresh indexing of the
+   data file d produces (index of the sequential scan, C08); [saved p1 d] the bytes FileIndex.save writes for it;
+   [load idx d] the outcome of FileIndex.load for index-file bytes idx next to data file d;
+   [file_ok d]: d is a list of bytes shorter than 2^64. *)
 From Coq Require Import NArith List Bool.
 From FEC Require Import Generated.FEConsts Generated.FileIndexConsts Base.Bytes Base.Crc32 Base.Scan Base.FEFormat
-  Models.FileScanM Models.FileIndexIOM.
+  Models.FileScanM Models.FileIndexIOM Proofs.FileScanP Proofs.FileIndexIOP.
 Import ListNotations.
 
-(* the loader before the repair: an empty data file with an index file shorter than one record *)
-Theorem C09_load_total_legacy_refuted : load_legacy [0%N] [] = Crash.
-Proof. vm_compute. reflexivity. Qed.
+(* A saved index, loaded next to the unchanged data file, is accepted and equals the fresh index (when the last
+   message is not of type INVALID = 0: such a log is saved without EOF marker and its index is always rejected and
+   rebuilt, see C09_nonvacuous). *)
+Theorem C09_saved_then_loaded : forall p1 d s,
+  file_ok d -> saved p1 d = Some s -> last_type_valid p1 d -> load s d = Accepted (fresh p1 d).
+Proof. exact saved_then_loaded. Qed.
+Print Assumptions C09_saved_then_loaded.
+
+(* Every crash point of the save (the index file cut at ANY byte length k): the loader either accepts exactly the
+   fresh index or rejects the file (ValueError -> re-indexing). *)
+Theorem C09_truncated_index_safe : forall p1 d s k,
+  file_ok d -> saved p1 d = Some s ->
+  load (firstn k s) d = Accepted (fresh p1 d) \/ exists del, load (firstn k s) d = Rebuild del.
+Proof. exact truncated_index_safe. Qed.
+Print Assumptions C09_truncated_index_safe.
+
+(* A data file of any other size (grown, shrunk, replaced) is rejected through the EOF marker, and the stale index is
+   deleted ... *)
+Theorem C09_stale_index_rejected_by_size : forall p1 d s d',
+  file_ok d -> saved p1 d = Some s -> last_type_valid p1 d -> length d' <> length d -> load s d' = Rebuild true.
+Proof. exact stale_size_rejected. Qed.
+Print Assumptions C09_stale_index_rejected_by_size.
+
+(* ... and for every cut of the index file AND a data file that has since been truncated (any length c) or appended
+   to (any bytes x), whatever the loader accepts is the fresh index of the *current* data file. *)
+Theorem C09_stale_index_rejected : forall p1 d s k d',
+  file_ok d -> saved p1 d = Some s -> ((exists c, d' = firstn c d) \/ (exists x, d' = d ++ x)) ->
+  forall i, load (firstn k s) d' = Accepted i -> i = fresh p1 d'.
+Proof. exact load_sound. Qed.
+Print Assumptions C09_stale_index_rejected.
+
+(* The loader has no outcome other than "accepted" and "ValueError" (which fast_generate_index turns into re-indexing),
+   for arbitrary index-file bytes and data-file bytes. *)
+Theorem C09_load_total : forall idx d, load idx d <> Crash.
+Proof. exact load_total. Qed.
+Print Assumptions C09_load_total.
+
+(* The loader before the repair f5d219e: empty data file, index file shorter than one record -> IndexError. *)
+Theorem C09_load_total_legacy_refuted : exists idx d, load_legacy idx d = Crash.
+Proof. exists [0%N], []. exact load_legacy_crashes. Qed.
 Print Assumptions C09_load_total_legacy_refuted.
+
+(* Opening the log (fast_generate_index + reading through the resulting index), with or without ignore_index, next to
+   no index file or any cut of an index saved for a data file of which the current one is a truncation or an
+   extension: never raises, returns exactly the messages of a sequential scan of the current data, and leaves behind
+   the index it found (only if it accepted it), the freshly saved one, or none. *)
+Theorem C09_open_is_fresh : forall p1 p1i d' ig,
+  plausible_index p1 p1i d' ->
+  exists o, open_log p1 load p1i d' ig = Opened o /\ o_msgs o = file_frames d' /\
+            (o_p1i o = p1i \/ o_p1i o = saved p1 d' \/ (o_p1i o = None /\ file_frames d' = [])).
+Proof. exact open_is_fresh. Qed.
+Print Assumptions C09_open_is_fresh.
+
+(* Non-vacuity: a concrete two-message log with junk meets the hypotheses; its saved index cut after the second
+   record is accepted exactly when the data ends with the second message, cut after the first record it is accepted
+   for the data truncated to the end of the first message (and equals that file's fresh index), and rejected otherwise;
+   a log whose last message has type 0 is saved without marker and rejected on load. *)
+Definition ex_body (ty seq : N) : list N := [2; 0; ty; 39; seq; 0; 0; 0; 3; 0; 0; 0; 0; 0; 0; 0; 1; 2; 3]%N.
+Definition ex_msg (ty seq : N) : list N := [46; 49; 0; 0]%N ++ le_enc 4 (crc32 (ex_body ty seq)) ++ ex_body ty seq.
+Definition ex_log : list N := [1; 2; 46; 49; 7]%N ++ ex_msg 16 7 ++ [9]%N ++ ex_msg 17 8.
+Definition ex_p1 (bs : list N) : option N := if N.eqb (nth 12 bs 0%N) 7 then Some 4294967298%N else Some 12%N.
+Definition ex_saved : list N := match saved ex_p1 ex_log with Some s => s | None => [] end.
+Definition ex_log0 : list N := ex_msg 16 7 ++ [46; 49; 0; 0]%N ++ le_enc 4 (crc32 [2; 0; 0; 0; 9; 0; 0; 0; 0; 0; 0; 0; 0; 0; 0; 0]%N)
+                                ++ [2; 0; 0; 0; 9; 0; 0; 0; 0; 0; 0; 0; 0; 0; 0; 0]%N.
+
+Example C09_nonvacuous :
+  file_ok ex_log /\ saved ex_p1 ex_log = Some ex_saved /\ length ex_saved = 42%nat /\ last_type_valid ex_p1 ex_log /\
+  map fst (file_frames ex_log) = [5; 33]%nat /\
+  load ex_saved ex_log = Accepted (fresh ex_p1 ex_log) /\
+  load (firstn 41 ex_saved) ex_log = Accepted (fresh ex_p1 ex_log) /\            (* marker cut: last message ends the file *)
+  load (firstn 41 ex_saved) (ex_log ++ [0]%N) = Rebuild true /\
+  load (firstn 27 ex_saved) ex_log = Rebuild true /\
+  load (firstn 27 ex_saved) (firstn 32 ex_log) = Accepted (fresh ex_p1 (firstn 32 ex_log)) /\
+  length (fresh ex_p1 (firstn 32 ex_log)) = 1%nat /\
+  load (firstn 13 ex_saved) ex_log = Rebuild true /\
+  load ex_saved (firstn 40 ex_log) = Rebuild true /\
+  (exists s0, saved ex_p1 ex_log0 = Some s0 /\ length s0 = 28%nat /\ load s0 ex_log0 = Rebuild true).
+Proof.
+  split; [split; [repeat constructor|vm_compute; reflexivity]|].
+  split; [vm_compute; reflexivity|]. split; [vm_compute; reflexivity|].
+  split; [eexists; split; vm_compute; reflexivity|].
+  repeat (split; [vm_compute; reflexivity|]).
+  eexists. split; [vm_compute; reflexivity|]. split; vm_compute; reflexivity.
+Qed.
+
+Example C09_open_nonvacuous :
+  plausible_index ex_p1 (Some (firstn 27 ex_saved)) (firstn 32 ex_log) /\
+  plausible_index ex_p1 (Some (firstn 30 ex_saved)) (ex_log ++ [1; 2; 3]%N) /\
+  (exists o, open_log ex_p1 load (Some (firstn 30 ex_saved)) (ex_log ++ [1; 2; 3]%N) false = Opened o /\
+             map fst (o_msgs o) = [5; 33]%nat /\ o_p1i o = saved ex_p1 (ex_log ++ [1; 2; 3]%N)).
+Proof.
+  assert (Hok : file_ok ex_log) by (split; [repeat constructor|vm_compute; reflexivity]).
+  assert (Hs : saved ex_p1 ex_log = Some ex_saved) by (vm_compute; reflexivity).
+  split; [exists ex_log, ex_saved, 27%nat; split; [exact Hok|split; [exact Hs|split; [left; exists 32%nat; reflexivity|reflexivity]]]|].
+  split; [exists ex_log, ex_saved, 30%nat; split; [exact Hok|split; [exact Hs|split; [right; exists [1; 2; 3]%N; reflexivity|reflexivity]]]|].
+  eexists. split; [vm_compute; reflexivity|]. split; vm_compute; reflexivity.
+Qed.
